@@ -32,13 +32,33 @@ Oracle (Python reference of the DAG, independent of the Lean model): after
     ancestor of the old tip and of none of the new parents; an exception
     leaves everything unchanged.
 
-Mutants this was built against (scratch worktrees, see report):
-uncommit.py: `new_revno = revno` (off by one); `reversed(parents[1:])` ->
-`parents[1:]`; `parents[1:]` -> `parents[2:]`; final `reversed(pending_merges)`
-dropped; master not updated; `old_tip != master.last_revision()` check
-dropped; keep_tags ignored; remove_tags called with [new tip] only;
-uncommit.rs: `!ancestors.contains` -> `ancestors.contains`; find_unique_ancestors
-called with (old_tip, []) ; only the first tag of a revision deleted.
+Findings made with this check (see the builder report): two were repaired in
+/repo (uncommit of a tagged revision in a bound branch self-deadlocked on the
+master lock and died with a PanicException; uncommit down to null: recorded a
+removed merge as the tree's basis revision) — model and oracle describe the
+repaired behaviour, so either defect coming back is a plain VIOLATION.  One is
+reported with the family slug `local-uncommit-deletes-master-tags`
+(uncommit(local=True) deletes the tag in the master although the master keeps
+the revision; computed by the oracle from: bound, local, a master tag whose
+name was removed locally).
+
+Mutation self-test (scratch worktree, 16 DAGs, seed 0; judged on violations
+whose family is None and on model mismatches; all caught by the oracle with a
+concrete input):
+ U1 uncommit.py: new_revno = revno (off by one)
+ U2 pending_merges.extend(parents[1:]) — order inside one merge revision
+    (needs a removed revision with >= 2 merged parents)
+ U3 parents[2:] instead of parents[1:] (first merged parent forgotten)
+ U4 final reversed(pending_merges) dropped (order across removed revisions / P0)
+ U5 master.set_last_revision_info dropped
+ U6 BoundBranchOutOfDate check dropped (needs a bound branch out of step)
+ U7 remove_tags(..., parents[:1]): tags on re-recorded merges deleted
+ U8 keep_tags ignored
+ U9 pending merges present before the uncommit forgotten
+ R1 uncommit.rs: `!ancestors.contains` -> `ancestors.contains`
+ R2 uncommit.rs: find_unique_ancestors(old_tip, first parent only)
+ R3 uncommit.rs: only one tag per revision deleted (needs two tags on one removed revision)
+ H1 harmless rewrite of the loop body (renamed local, reordered statements) -> clean
 """
 import os
 import shutil
@@ -121,7 +141,8 @@ def ref_uncommit(dag, tip, d, p0):
         cur = ps[0] if ps else None
     if cur is not None and cur not in dag["parents"]:
         return None
-    return cur, ([cur] if cur is not None else []) + list(reversed(pm))
+    # a tree without basis carries no pending merges
+    return cur, ([cur] + list(reversed(pm)) if cur is not None else [])
 
 
 # ---------------------------------------------------------------------------
@@ -405,32 +426,7 @@ def expected_gone(dag, c, before):
     return set() if c["keep"] else {k for k, v in before["tags"].items() if v in uniq}
 
 
-def known_family(dag, c, before, err):
-    """classifier of the specific input families on which the unchanged code is known to misbehave"""
-    ref = ref_uncommit(dag, c["tip"], c["d"], before["parents"][1:])
-    if ref is None:
-        return None
-    gone = expected_gone(dag, c, before)
-    if err == "E:Panic" and before["master"] is not None and not c["local"] and gone:
-        # bound branch, master locked by uncommit, a tag has to be deleted: delete_tag opens a second
-        # master object (set_last_revision_info cleared the cache) and contends with uncommit's own lock
-        return "bound-uncommit-tag-removal-lock-contention"
-    if ref[0] is None and ref[1] and err in (None, "E:GhostParent"):
-        return "uncommit-to-null-with-merges"
-    return None
-
-
 def oracle_uncommit(dag, c, before, err, after, sink):
-    fam = known_family(dag, c, before, err)
-    if fam == "bound-uncommit-tag-removal-lock-contention":
-        sink("uncommit of a tagged revision in a bound branch dies with LockContention on its own master lock "
-             "(PanicException) after moving the tips; tags left: %s" % (after["tags"],), fam)
-        return
-    if fam == "uncommit-to-null-with-merges" and err == "E:GhostParent":
-        sink("uncommit to null: with pending merges %s: set_parent_ids raises GhostRevisionUnusableHere after the "
-             "branch tip was moved; tree parents still %s" % (ref_uncommit(dag, c["tip"], c["d"], before["parents"][1:])[1],
-                                                             after["parents"]), fam)
-        return
     out_of_step = (before["master"] is not None and not c["local"]
                    and before["master"]["tip"] != before["tip"])
     if out_of_step and err != "E:OutOfDate":
@@ -456,11 +452,7 @@ def oracle_uncommit(dag, c, before, err, after, sink):
     if lh is not None and G.ref_lh(dag, c["tip"]) is not None and after["revno"] != len(lh):
         sink("revno %d but the tip's left-hand history has length %d" % (after["revno"], len(lh)), None)
     # tree parents
-    if after["tip"] is None and after["parents"]:
-        sink("branch is empty after uncommit but the tree's basis is %s (parents %s): removed merges were "
-             "recorded as the tree's basis revision" % (after["parents"][0], after["parents"]),
-             "uncommit-to-null-with-merges")
-    elif after["parents"][:1] != ([after["tip"]] if after["tip"] is not None else []):
+    if after["parents"][:1] != ([after["tip"]] if after["tip"] is not None else []):
         sink("tree basis %s differs from branch tip %s" % (after["parents"][:1], tip_s(after["tip"])), None)
     if after["parents"] != ref_filter(dag, parents):
         sink("tree parents %s, expected %s (removed merges, older revision first, then previous pending merges)"
@@ -516,7 +508,7 @@ def oracle_roundtrip(c, res, sink):
 # ---------------------------------------------------------------------------
 
 def run(ctx, ndags=None, maxn=None):
-    ndags = ndags or ctx.pick(16, 120)
+    ndags = ndags or ctx.pick(26, 260)
     maxn = maxn or ctx.pick(7, 10)
     jobs = []
     for _ in range(ndags):
@@ -545,11 +537,6 @@ def run(ctx, ndags=None, maxn=None):
                 if removed_merge:
                     ctx.count("unc removes-merge")
                 oracle_uncommit(dag, c, before, err, after, sink)
-                fam = known_family(dag, c, before, err)
-                if fam is not None:
-                    ctx.count("unc family:" + fam)
-                if fam == "bound-uncommit-tag-removal-lock-contention":
-                    continue        # locks are not modelled; reported by the oracle
                 cases.append(case)
                 lines.append("unc %s %s %d %s %s" % (genc, st_line(before), c["d"], "T" if c["keep"] else "F",
                                                      "T" if c["local"] else "F"))
@@ -582,6 +569,10 @@ def run(ctx, ndags=None, maxn=None):
                 outs.append(r["err"] if r["err"] is not None else "ok " + st_line(r["after"]))
     ctx.diff(cases, lines, outs)
     ctx.extra["dags"] = dict(n=ndags, max_revisions=maxn)
+    fams = {}
+    for v in ctx.violations:
+        fams[str(v["family"])] = fams.get(str(v["family"]), 0) + 1
+    ctx.extra["violation_families"] = fams
 
 
 def widen(ctx):
